@@ -60,9 +60,10 @@ def nested_harness(name, prop, schema, var, desc, tiers=("quick", "thorough"), t
     h.requires = tuple(sorted(ctx.requires))
     h.sample = node.describe()
     h.add(*h.array_literal("msg", msg))
-    h.add("let r: Result<%s, _> = cbor_deserialize(&msg);" % schema.rust)
+    h.add("let r: Result<(%s, &[u8]), _> = ctap_types::serde::de::take_from_bytes(&msg);" % schema.rust)
     h.add("match r {")
-    h.add("    Ok(val) => {")
+    h.add("    Ok((val, rest)) => {")
+    h.add('        assert!(rest.is_empty(), "the decoder must consume exactly the value (nothing left unread, nothing swallowed)");')
     for l in schema.check(ctx, "val", m):
         h.add("        " + l)
     h.add('        kani::cover!(true, "value decoded");')
